@@ -39,8 +39,10 @@ def result(b, k, p):
 
 def expected_result(rec):
     """Spec record of a result -> the real value expected in the current odd-results mode."""
-    if rec["k"] in ("s", "c", "r"):
+    if rec["k"] in ("s", "c", "r") and RESULT_MODE["mode"] is not None:
         return odd_of(rec["b"], rec["k"], tuple(rec["p"]))
+    if rec["k"] == "id":            # a flow value passed through by an empty Split
+        return rec["p"][0]
     return tag(rec["b"], rec["k"], rec["p"])
 
 
